@@ -513,6 +513,10 @@ def _oracle_usable_cs(ctx, which, rp, uw_pass, replay):
                           f"area {sd} of {a}", replay)
 
 
+# other quantities of the opening that share helpers / memoised geometry with the usable cross-section
+PRE_READS = ["tip_cross_section", "tip_width", "contour_lines", "height", "usable_width"]
+
+
 def _model_chain(per_which, hook, mro):
     out = []
     for t in (0, 1, 2):
@@ -521,7 +525,7 @@ def _model_chain(per_which, hook, mro):
     return out
 
 
-def _one_case(ctx, which, desc, groove, gap, lean_lines, lean_expect, do_cs=True, full_k=True):
+def _one_case(ctx, which, desc, groove, gap, lean_lines, lean_expect, do_cs=True, full_k=True, pre=None):
     import numpy as np
     members = MEMBERS[which]
     uw, depth = float(groove.usable_width), float(groove.depth)
@@ -571,6 +575,18 @@ def _one_case(ctx, which, desc, groove, gap, lean_lines, lean_expect, do_cs=True
             ctx.violation("three-roll-icd", f"inscribed circle diameter {vals['inscribed_circle_diameter']} != {icd}", replay0)
     if do_cs:
         _oracle_usable_cs(ctx, which, ref, uw_pass, dict(replay0, read="usable_cross_section"))
+        # the same statement on a pass on which OTHER quantities of the opening were read first (the usable cross-section
+        # spans exactly the usable width whatever was asked before: a clip remembered for another width must not answer)
+        if gap > 0:
+            pre = pre or ctx.rng.sample(PRE_READS, ctx.rng.randrange(1, len(PRE_READS) + 1))
+            rp2 = _fresh(which, groove, gap=gap)
+            for name in pre:
+                try:
+                    _get(rp2, name)
+                except _ImplRaised:
+                    pass        # what these reads themselves answer is not C09's subject
+            ctx.count("usable-cs-after:" + pre[0])
+            _oracle_usable_cs(ctx, which, rp2, uw_pass, dict(replay0, read="usable_cross_section", read_before=pre))
 
     # ---- K: placement vertex by vertex ---------------------------------------------------------------------------
     envline = "env " + " ".join(f"{k}={stub.bits(v)}" for k, v in
@@ -740,4 +756,4 @@ def replay(ctx, data):
         return
     g = _build_groove(r["groove"])
     lines, expect = [], []
-    _one_case(ctx, r["pass"], r["groove"], g, r["gap"], lines, expect)
+    _one_case(ctx, r["pass"], r["groove"], g, r["gap"], lines, expect, pre=r.get("read_before"))
